@@ -62,6 +62,9 @@ pub struct H2Shared {
     pub seen_reqs: std::collections::BTreeSet<usize>,
     /// the backend waits this long before sending its SETTINGS (a slow h2c server)
     pub settings_delay_ms: u64,
+    /// graceful shutdown: right before answering the request with this x-lab-req number the backend sends
+    /// GOAWAY(NO_ERROR, last_stream_id = that stream) and then answers it (RFC 9113 6.8)
+    pub goaway_before_req: Option<usize>,
     /// scheduled WINDOW_UPDATEs of the backend: (delay ms since connection start, stream (0 = connection, u32::MAX = the first stream), increment)
     pub grants: Vec<(u64, u32, u32)>,
     pub recorded: Vec<H2Recorded>,
@@ -73,7 +76,7 @@ pub struct H2Shared {
 
 impl Default for H2Shared {
     fn default() -> Self {
-        H2Shared { actions: BTreeMap::new(), settings: Settings::default(), auto_window_update: true, grants: vec![], recorded: vec![], violations: vec![], conn_errors: vec![], max_open_streams: 0, connections: 0, seen_reqs: Default::default(), settings_delay_ms: 0 }
+        H2Shared { actions: BTreeMap::new(), settings: Settings::default(), auto_window_update: true, grants: vec![], recorded: vec![], violations: vec![], conn_errors: vec![], max_open_streams: 0, connections: 0, seen_reqs: Default::default(), settings_delay_ms: 0, goaway_before_req: None }
     }
 }
 
@@ -181,6 +184,9 @@ fn serve_h2c(conn_idx: usize, stream: TcpStream, shared: Arc<Mutex<H2Shared>>) {
                 g.recorded.push(H2Recorded { conn: conn_idx, stream: sid, req, lab_req });
                 lab_req.and_then(|n| g.actions.get(&n).cloned()).unwrap_or_default()
             };
+            if lab_req.is_some() && lab_req == shared.lock().unwrap().goaway_before_req {
+                let _ = c.send(&Frame::goaway(sid, h2::NO_ERROR));
+            }
             let mut headers = vec![(":status".to_string(), action.status.to_string())];
             headers.extend(action.headers.iter().cloned());
             if let Some((code, after)) = action.reset {
